@@ -5,6 +5,7 @@ From Coq Require Import List Arith NArith ZArith Bool.
 From PV Require Import Base.Bytes Base.Outcome Base.KV Bank.Model Bank.Props.
 From PV Require Import Chain.Model Chain.Run Chain.BankProps.
 From PV Require Generated.GenApp.
+From PV Require Import Chain.SchemaProps.
 Import ListNotations.
 
 (** one end-of-block: the invariant (bank accounting identity + the burn module account holds nothing) is kept,
@@ -96,3 +97,9 @@ Print Assumptions C07_all_balances_refuted.
 Theorem C07_invariant_initially : BI empty_chain.
 Proof. exact BI_empty. Qed.
 Print Assumptions C07_invariant_initially.
+
+(** source tie (T1): in app.go's end-blocker order only custom modules with an empty EndBlock come after the burn module,
+    so "after end_block" in the theorems above is "at the end of the block" of the application *)
+Theorem C07_burn_is_last_coin_mover : GenApp.burn_in_end_blockers = true /\ after_burn_harmless = true.
+Proof. exact burn_is_last_coin_mover. Qed.
+Print Assumptions C07_burn_is_last_coin_mover.
